@@ -66,6 +66,12 @@ struct Plan {
     yield_intensity: u32,
     #[serde(default)]
     yield_mask: u64,
+    /// creation EPMD hands out to the node (0 = 3)
+    #[serde(default)]
+    creation: u32,
+    /// the peer writes identifiers with the older tags (PID_EXT, PORT_EXT, NEW_REFERENCE_EXT) where they fit
+    #[serde(default)]
+    legacy_ids: bool,
     #[serde(default)]
     salt: u64,
 }
@@ -153,6 +159,8 @@ impl Scenario for C19 {
             proc_stall_16: *r.pick(&[0u32, 0, 4]),
             yield_intensity: *r.pick(&[0u32, 4, 10]),
             yield_mask: r.next_u64() | r.next_u64(),
+            creation: *r.pick(&[3u32, 3, 1, 5, 200, 255, 70_000]),
+            legacy_ids: r.chance(1, 4),
             salt: r.next_u64(),
         };
         let mut p = p;
@@ -439,7 +447,7 @@ async fn peer_conn(
                 let kinds = ["junk_garbage", "junk_notcontrol", "junk_marker", "junk_truncated"];
                 for j in 0..n {
                     let jf = InFrame { kind: kinds[(f.seed as usize + j) % 4].to_string(), target: f.target, seed: f.seed.wrapping_add(j as u64), gap_ms: 0 };
-                    if let Some(frame) = build_frame(&p, k, &jf, &pids, &None, &mut exp.lock().unwrap()) {
+                    if let Some(frame) = wire::with_legacy_ids(p.legacy_ids, || build_frame(&p, k, &jf, &pids, &None, &mut exp.lock().unwrap())) {
                         let _ = tx.send(Cmd::Frame(frame));
                     }
                     if j % 7 == 3 {
@@ -485,7 +493,7 @@ async fn peer_conn(
             }
             _ => {
                 let rpc_from = ps.lock().unwrap().rpc_from.clone();
-                let frame = build_frame(&p, k, f, &pids, &rpc_from, &mut exp.lock().unwrap());
+                let frame = wire::with_legacy_ids(p.legacy_ids, || build_frame(&p, k, f, &pids, &rpc_from, &mut exp.lock().unwrap()));
                 if let Some(frame) = frame {
                     w.ev(format!("peer: frame {} {} target={}", k, f.kind, f.target));
                     let _ = tx.send(Cmd::Frame(frame));
@@ -529,7 +537,7 @@ async fn peer_conn(
 
 async fn scenario(w: &Arc<World>, p: &Plan) {
     let p = Arc::new(p.clone());
-    let node = match start_node(w, 3).await {
+    let node = match start_node(w, if p.creation == 0 { 3 } else { p.creation }).await {
         Ok(n) => Arc::new(n),
         Err(e) => {
             w.violation("HARNESS-setup", e);
